@@ -314,7 +314,7 @@ def fcgi_parse_response(data, reqid=1):
         res["max_record"] = max(res["max_record"], clen)
         if ver != 1:
             res["errors"].append("record version %d" % ver)
-        if rid != reqid:
+        if rid != reqid and rtype not in (FCGI_GET_VALUES_RESULT, FCGI_UNKNOWN):
             res["errors"].append("record for request id %d" % rid)
         if rtype == FCGI_STDOUT:
             if stdout_closed and clen:
@@ -332,6 +332,8 @@ def fcgi_parse_response(data, reqid=1):
                 res["end"] = (app_status, proto_status)
             ended = True
             res["complete"] = True
+        elif rtype in (FCGI_GET_VALUES_RESULT, FCGI_UNKNOWN) and rid == 0:
+            res.setdefault("management", []).append(rtype)
         else:
             res["errors"].append("unexpected record type %d" % rtype)
     res["rest"] = data[p:]
